@@ -28,7 +28,10 @@ class C11(scen.WorldProp):
                 "Wheatley.C11.peal_exact",
                 "Wheatley.C11.handstroke_gap",
                 "Wheatley.C11.world_solo_turn",
-                "Wheatley.C11.world_solo_rows"]
+                "Wheatley.C11.world_solo_rows",
+                "Wheatley.C11.cli_speed_and_gap"]
+    # the command line: what of the built configuration this property is about
+    cli_fields = ['peal_speed', 'gap']
     level_text = ("theorems (any ordered field): blow index = r*N + p + floor(r/2)*g; I = m*60/2520/(2N+1); a wait "
                   "that starts before the bell's time ends exactly on it; hence every strike of a solo touch is at "
                   "T+3+I*index for any number of rows provided the 10 ms tick sleep is shorter than I; 5040 rows at "
